@@ -324,6 +324,13 @@ Definition nth_block (img : image) (i : nat) : block := nth i img [].
 
 (* open of a non-fresh, validly sized image: the outcome and the device image as the call
    leaves it (also when it fails) *)
+(* two retire_extents calls: `all` is the retirement list newest first; its last `nlosers`
+   entries were pushed by the scan, the ones before them by remove_expired_recovery_winners *)
+Definition retire_two (img : image) (p : jpos) (all : list (N * N)) (nlosers : nat) : image * jpos * bool :=
+  let ne := (length all - nlosers)%nat in
+  let '(img1, p1, ok1) := retire_extents img p (skipn ne all) in
+  if negb ok1 then (img1, p1, false) else retire_extents img1 p1 (firstn ne all).
+
 Definition open_image (c : rcfg) (img : image) : res opened * image :=
   let total := N.of_nat (length img) in
   if Nat.ltb (length img) 17 then (Rej EInvalidDevice, img)          (* validate_device_size *)
@@ -348,13 +355,18 @@ Definition open_image (c : rcfg) (img : image) : res opened * image :=
         | ReplayOk img1 p1 =>
           let jl := if c_ro c then sort_by_start jexts else [] in
           match (do st1 <- scan (S (length img1)) c version total img1 FEOX_DATA_START_BLOCK st0 jl;
-                 match c_now c with
-                 | Some now => expire_winners c version now (rs_idx st1) st1
-                 | None => Ok st1 end) with
+                 do st2 <- (match c_now c with
+                            | Some now => expire_winners c version now (rs_idx st1) st1
+                            | None => Ok st1 end);
+                 Ok (st2, length (rs_retired st1))) with
           | Panic => (Panic, img1)
           | Rej e => (Rej e, img1)
-          | Ok st2 =>
-            let '(img2, p2, ok) := if c_ro c then (img1, p1, true) else retire_extents img1 p1 (rs_retired st2) in
+          | Ok (st2, nlosers) =>
+            (* losers (and pending extents) found by the scan first, the expired winners in a
+               second journaled call: a crash between two journal chunks must never leave an
+               expired newest generation retired while an older one is still on the device *)
+            let '(img2, p2, ok) := if c_ro c then (img1, p1, true)
+                                   else retire_two img1 p1 (rs_retired st2) nlosers in
             if negb ok then (Rej ERetire, img2)
             else
               match (if rs_last_end st2 <? total
